@@ -82,6 +82,21 @@ EndRules(s, acc) ==
   IN IF s.end.why = "fault" THEN [viol |-> acc.viol \cup {<<n, "C05-memory-fault-in-call">>}, stats |-> [nblocks |-> 0, match |-> FALSE, types |-> <<>>]]
      ELSE IF s.end.why = "cap" THEN [viol |-> acc.viol \cup {<<n, "D10-did-not-terminate-within-call-cap">>}, stats |-> [nblocks |-> 0, match |-> FALSE, types |-> <<>>]]
      ELSE IF s.end.why # "end" THEN [viol |-> acc.viol, stats |-> [nblocks |-> 0, match |-> FALSE, types |-> <<>>]]
+     ELSE IF Len(s.dict_points) > 0 THEN
+     \* D12: a dictionary installed after a completed FULL flush: the stream up to that point decodes on its own to the input
+     \* so far, and the rest decodes, with the dictionary as preset history, to the rest of the input
+     LET dp == s.dict_points[1]   zb == dp[1]   u == dp[2]
+         hdr == HeaderOf(w, acc.produced)
+         pre == IF hdr.st = "ok" THEN Decode(SubSeq(acc.produced, 1, zb), <<>>, 8 * hdr.end) ELSE [tag |-> "Invalid", out |-> <<>>, atBoundary |-> FALSE]
+         sfx == Decode(acc.produced, s.dict, 8 * zb)
+         tl == TrlLen(s.wrap)
+         v12 == (IF ~(pre.tag = "NeedMore" /\ pre.atBoundary /\ pre.out = SubSeq(s.inp, 1, u)) THEN {<<n, "D12-stream-before-mid-stream-dictionary-not-a-complete-prefix">>} ELSE {})
+                \cup (IF ~(sfx.tag = "Valid" /\ sfx.out = SubSeq(s.inp, u + 1, Len(s.inp)) /\ EndByte(sfx) + tl = Len(acc.produced))
+                      THEN {<<n, "D12-data-after-mid-stream-dictionary-does-not-decode-with-it">>} ELSE {})
+                \cup (IF sfx.tag = "Valid" /\ \E bi \in 1..Len(sfx.blocks) : sfx.blocks[bi].minRef < 0 - Len(s.dict) \/ sfx.blocks[bi].maxDist > P2(wb)
+                      THEN {<<n, "D8-match-outside-window-or-dictionary">>} ELSE {})
+     IN [viol |-> acc.viol \cup v12, stats |-> [nblocks |-> IF sfx.tag = "Valid" THEN Len(sfx.blocks) ELSE 0,
+                                               match |-> sfx.tag = "Valid" /\ \E bi \in 1..Len(sfx.blocks) : sfx.blocks[bi].minRef < 0, types |-> <<>>]]
      ELSE
      LET pdz == PrefixDecode(s, acc.produced, dictUsed, acc.dec)
          u == IF ~pdz.ok THEN Unwrap(w, acc.produced, dictUsed)
@@ -107,13 +122,15 @@ EndRules(s, acc) ==
                \cup (IF u.tag = "Valid" /\ w = "zlib" /\ u.hdr.fields.info + 8 < wb THEN {<<n, "D8-zlib-CINFO-smaller-than-window">>} ELSE {})
      IN [viol |-> acc.viol \cup v5 \cup v7 \cup v7b \cup v8,
          stats |-> [nblocks |-> Len(blocks), match |-> \E bi \in 1..Len(blocks) : blocks[bi].maxDist > 0,
-                    types |-> [bi \in 1..Len(blocks) |-> blocks[bi].type]]]
+                    types |-> [bi \in 1..Len(blocks) |-> blocks[bi].type],
+                    dictref |-> \E bi \in 1..Len(blocks) : blocks[bi].minRef < 0]]
 
 JudgeStream(s) ==
   LET a0 == [produced |-> <<>>, consumed |-> 0, given |-> 0, pending |-> 0, viol |-> {}, stall |-> 0, fullPoints |-> <<>>, ended |-> FALSE, flushJudged |-> 0, eosSeen |-> FALSE, dec |-> NoDec]
       a == FoldLeft(LAMBDA acc, k : CallRules(s, acc, k), a0, Range1(Len(s.calls)))
       e == EndRules(s, a)
-  IN [scn |-> s.scn, viol |-> SetToSeq(e.viol), ncalls |-> Len(s.calls), produced |-> Len(a.produced), flush_points |-> a.flushJudged,
+      v13 == {<<s.wrong_state_accepted[i], "D13-dictionary-call-accepted-in-a-wrong-state">> : i \in 1..Len(s.wrong_state_accepted)}
+  IN [scn |-> s.scn, viol |-> SetToSeq(e.viol \cup v13), ncalls |-> Len(s.calls), produced |-> Len(a.produced), flush_points |-> a.flushJudged,
       full_points |-> Len(a.fullPoints), stats |-> e.stats]
 
 (* ---- one-shot scenario (isal_deflate_stateless): rules S1-S4 ---- *)
